@@ -147,3 +147,17 @@ def register(claim, na):
         "shadow symbolic amplitudes through the real code + DFS path explorer (z3) + per-path obligations; duck-typed bit-vector execution of the bit trick",
         "DESIGN.md §1 E2/E4, §2 C12",
     )
+    claim(
+        "C13", "model_checking",
+        "CrossHair (symbolic execution with z3) confirms over all paths, for unbounded symbolic ints within small list bounds, the conservation "
+        "laws of _expand_sample_size / expand_sample_sizes (copies between 1 and the maximum summing exactly to the request, per circuit, in order), "
+        "expand -> stub run -> combine_measurement_counts (per-circuit totals), combine_* structure incl. one shared list object per group and "
+        "untouched inputs, and split_into_batches (cover, order, size, enough samples, rejections); each harness has a reachability twin. "
+        "scale_and_discretize and get_measurements_representing_distribution run on z3-symbolic weights/probabilities with every rounding, "
+        "comparison and random choice forked: exactly N shots on the support, integers summing to the total within one of the share.",
+        "CrossHair verdicts other than 'Confirmed over all paths' are inconclusive; CUT-FMT on raise f-strings; exact-real floats; numpy's random "
+        "choice replaced by a forked nondeterministic stub, argsort ties resolved in one stable order; ground instances: huge operands (beyond 2^53) "
+        "and seeded numpy runs of the representing-distribution builder.",
+        "CrossHair/z3 over the real list-and-integer logic + SymTrace path exploration with z3 for the real-valued parts",
+        "DESIGN.md §1 E2/E3, §2 C13",
+    )
